@@ -8,8 +8,10 @@ units = checks.units_for(prop, tier, vf.SEED)
 errs = vf.run_units(units)
 for e in errs: print("BUILD ERROR", e[:1500])
 g = collections.OrderedDict()
+known = vf.load_known()
 for u in units:
     for ev in u.events:
+        if any(vf.finding_matches(f, p, ev, u.cfg) for f in known for p in vf.event_props(ev)): continue
         k = (ev.get("props"), ev.get("kind"), ev.get("op"), ev.get("pre"), vf.cfg_category(u.cfg) if u.cfg else "")
         g.setdefault(k, []).append((u, ev))
 for k, v in sorted(g.items(), key=lambda kv: -len(kv[1])):
